@@ -72,3 +72,63 @@ func zzC19TicketStoredIsTicketOffered() {
 		verifAssert(len(hello.pskIdentities) == 1 && zzBytesEq(hello.pskIdentities[0].label, label), "offered-identity-is-the-stored-ticket")
 	}
 }
+
+func zzStubFinishedHashWrite(h *finishedHash, msg []byte) (int, error) { return len(msg), nil }
+
+//verif:harness C19 tls12_ticket_stored_is_ticket_offered unwind=400 paths=20000
+//verif:stub (*utls.Conn).sendAlert zzStubSendAlert
+//verif:stub (*utls.Conn).readHandshake zzStubReadHandshake
+//verif:stub (*utls.finishedHash).Write zzStubFinishedHashWrite
+//verif:stub (*crypto/x509.Certificate).VerifyHostname zzStubVerifyHostname
+//verif:stub (time.Time).Sub zzStubTimeSub
+//verif:expect stored unrequested no-ticket
+//verif:assume the Finished transcript hash is not computed; x509 host-name matching succeeds
+//verif:doc The TLS 1.2 storing half: readSessionTicket + saveSessionTicket with the ServerHello's session_ticket flag and the hello's flag arbitrary and a NewSessionTicket carrying 3 symbolic bytes: a ticket the client did not ask for is refused with illegal_parameter; otherwise the session (version, suite, master secret, extended-master-secret flag as negotiated, ticket verbatim) is stored once under Config.ServerName, and the next connection's loadSession looks up that same key and offers exactly that ticket.
+func zzC19TLS12TicketStoredIsTicketOffered() {
+	zzAlerts, zzCacheKeys, zzCachePuts, zzCachePutVals, zzCachedSession = nil, nil, nil, nil, nil
+	zzHostnameOK = true
+	now := zzFixedTime()
+	cert := &x509.Certificate{NotAfter: now.Add(time.Hour)}
+	cfg := &Config{ServerName: "a.example", ClientSessionCache: zzRecordingCache{}, Time: func() time.Time { return now }}
+	ems := verifBool("ems-negotiated")
+	c := &Conn{config: cfg, isClient: true, vers: VersionTLS12, cipherSuite: TLS_ECDHE_RSA_WITH_AES_128_GCM_SHA256, extMasterSecret: ems,
+		peerCertificates: []*x509.Certificate{cert}, verifiedChains: [][]*x509.Certificate{{cert}}}
+	ticket := verifBytes("ticket", 3)
+	secret := verifBytes("master-secret", 2)
+	hello := &clientHelloMsg{ticketSupported: verifBool("client-asked-for-ticket")}
+	sh := &serverHelloMsg{ticketSupported: verifBool("server-announces-ticket")}
+	hs := &clientHandshakeState{c: c, hello: hello, serverHello: sh, masterSecret: secret}
+	zzInbox = []any{&newSessionTicketMsg{ticket: ticket}}
+	err := hs.readSessionTicket()
+	if sh.ticketSupported && !hello.ticketSupported {
+		verifReach("unrequested")
+		verifAssert(err != nil && len(zzAlerts) == 1 && zzAlerts[0] == alertIllegalParameter, "unrequested-ticket-refused")
+		return
+	}
+	verifAssert(err == nil, "ticket-read")
+	serr := hs.saveSessionTicket()
+	if !sh.ticketSupported {
+		verifReach("no-ticket")
+		verifAssert(serr == nil && len(zzCachePuts) == 0, "nothing-stored-without-a-ticket")
+		return
+	}
+	verifReach("stored")
+	verifAssert(serr == nil && len(zzCachePuts) == 1 && zzCachePuts[0] == "a.example", "stored-once-under-the-server-name")
+	if len(zzCachePutVals) != 1 || zzCachePutVals[0] == nil {
+		verifFail("stored-session-present", "")
+		return
+	}
+	ss := zzCachePutVals[0].session
+	verifAssert(zzBytesEq(ss.ticket, ticket) && zzBytesEq(ss.secret, secret) && ss.version == VersionTLS12 && ss.cipherSuite == TLS_ECDHE_RSA_WITH_AES_128_GCM_SHA256 && ss.extMasterSecret == ems, "stored-session-is-the-negotiated-one")
+	zzCachedSession = zzCachePutVals[0]
+	c2 := &Conn{config: cfg, isClient: true}
+	uc := &UConn{Conn: c2}
+	sc := newSessionController(uc)
+	sc.loadSessionTracker = UtlsAboutToCall
+	c2.utls.sessionController = sc
+	hello2 := &clientHelloMsg{supportedVersions: []uint16{VersionTLS12}, cipherSuites: []uint16{TLS_ECDHE_RSA_WITH_AES_128_GCM_SHA256}, extendedMasterSecret: true, ticketSupported: true}
+	session, _, _, lerr := c2.loadSession(hello2)
+	verifAssert(lerr == nil && session != nil, "next-connection-offers-the-session")
+	verifAssert(len(zzCacheKeys) == 1 && zzCacheKeys[0] == zzCachePuts[0], "lookup-key-is-the-store-key")
+	verifAssert(zzBytesEq(hello2.sessionTicket, ticket), "offered-ticket-is-the-stored-ticket")
+}
